@@ -1170,6 +1170,21 @@ func checkN78(c *Ctx, pr *prioRoles) {
 				continue
 			}
 			seen[cal] = true
+			// the method only forwards to the shared for-all helper: isTacticFilled(list) =
+			// IsPrioritiesFilled(list, dsc.tactic)
+			if g := p.forwardsTo(cal); g != cal {
+				var fwd *ssa.Call
+				for _, b := range cal.Blocks {
+					if ret, isRet := b.Instrs[len(b.Instrs)-1].(*ssa.Return); isRet && len(ret.Results) == 1 {
+						fwd, _ = ret.Results[0].(*ssa.Call)
+					}
+				}
+				if over, isFA := p.forAllShape(g); isFA && fwd != nil && p.Callee(fwd) == g && len(fwd.Call.Args) == 2 &&
+					fwd.Call.Args[0] == ssa.Value(cal.Params[1]) && p.isFieldLoad(fwd.Call.Args[1], "tactic") {
+					c.R.Check(over == "slice", "N7", p.FnKey(cal), p.Pos(cal.Pos()), "for-all listed priorities: tactic != 0 (forwarded to the shared helper over the list)", "the allotment-filled predicate ranges over the entries of the map, not over the listed priorities: a priority without an entry is not seen")
+					continue
+				}
+			}
 			// the same for-all spelled with the standard helper:
 			//   return !slices.ContainsFunc(list, func(p uint) bool { return tactic[p] == 0 })
 			if okCF, whyCF, isCF := p.filledByContainsFunc(cal); isCF {
